@@ -51,6 +51,8 @@ pub type Bumper = BumpTransactionEventHandlerSync<
 >;
 
 pub struct McNode {
+	/// set whenever the chain monitor may have produced events (block connected, monitor update)
+	pub mon_dirty: std::cell::Cell<bool>,
 	pub wallet: Arc<TestWalletSource>,
 	pub bumper: Bumper,
 	pub tag: u8,
@@ -136,6 +138,7 @@ impl McNode {
 			logger.clone(),
 		);
 		McNode {
+			mon_dirty: std::cell::Cell::new(false),
 			wallet,
 			bumper,
 			tag,
@@ -240,6 +243,10 @@ impl McNode {
 			seen.set(true);
 			Err(ReplayEvent())
 		});
-		seen.get()
+		// The chain monitor has events of its own (SpendableOutputs, BumpTransaction). They must not be
+		// peeked with a failing handler: BumpTransaction events are "repeated events" which the monitor
+		// drops when the handler fails (they are only regenerated at the next bump). The world tracks a
+		// dirty flag instead.
+		seen.get() || self.mon_dirty.get()
 	}
 }
